@@ -117,6 +117,21 @@ def _t_pd_strip(s):
     return ('result', ['pd_strip', s.strip()], ('pd_strip', (s.strip(),), {}))
 
 
+def _t_pd_even(n):
+    if not (isinstance(n, int) and not isinstance(n, bool)) or n % 2:
+        return ('invalid', None, None)
+    return ('result', ['pd_even', n], ('pd_even', (n,), {}))
+
+
+def _t_js_list(items):
+    if not (isinstance(items, list) and all(isinstance(x, str) for x in items)):
+        return ('invalid', None, None)
+    return ('result', ['js_list', items], ('js_list', (items,), {}))
+
+
+def _t_ctxm_plain(ctx, a=0): return ('result', [None, a], ('ctxm', (a,), {}))
+
+
 def _t_cm(a, b=0): return ('result', ['cm', 'ProbeView', a, b], ('view.cm', (a, b), {}))
 def _t_sm(a, b=0): return ('result', ['sm', a, b], ('view.sm', (a, b), {}))
 def _t_bump(by=1): return ('result', ['bump', by if isinstance(by, int) and not isinstance(by, bool) else 1], ('cnt.bump', (by,), {}))
@@ -133,6 +148,7 @@ TWINS = {
     'typedctor': _t_typedctor, 'raiselib': _t_raiselib, 'pd_pos': _t_pd_pos, '_under': _t_under, 'ns._dotted': _t_dotted,
     'cowrapped': _t_cowrapped, 'js_draft4': _t_js_draft4, 'window': _t_window, 'mutate': _t_mutate, 'broken.vm': _t_broken,
     'odd_defaults': _t_odd_defaults, 'tc_only': _t_tc_only, 'pd_strip': _t_pd_strip, 'view.cm': _t_cm, 'view.sm': _t_sm, 'cnt.bump': _t_bump,
+    'pd_even': _t_pd_even, 'js_list': _t_js_list, 'ctxm_plain': _t_ctxm_plain,
 }
 
 
